@@ -4,6 +4,7 @@ set -e
 cd "$(dirname "$0")"
 cd spec
 for f in *.tla; do
+  [ "$f" = "GaloisProofs.tla" ] && continue   # TLAPS module: checked by tlapm (thorough tier), not by SANY
   out=$(java -cp /opt/veriftools/tla/tla2tools.jar:/opt/veriftools/tla/CommunityModules-deps.jar tla2sany.SANY "$f" 2>&1) || { echo "$out"; exit 1; }
   if echo "$out" | grep -qi "error\|abort"; then echo "$out"; exit 1; fi
 done
